@@ -38,7 +38,8 @@ package kernel
 // (d) back in the cache queue (unless the store returned an error).
 //@ func (chain *Chain) cosiSendAnnouncement
 //@   property C24
-//@   trustpre Gap asFinal IsPledging PayloadHash ConsensusThreshold Public determineBestRound updateEmptyHeadRoundAndPersist startNewRoundAndPersist
+//@   trustpre IsPledging PayloadHash ConsensusThreshold Public
+//@   trustpre quiet: Gap asFinal determineBestRound updateEmptyHeadRoundAndPersist startNewRoundAndPersist
 //@   requires CosiChainOK(chain) && AggsShape(chain) && VerifiersOK(chain) && !isnil(chain.persistStore)
 //@   requires m != nil && m.Snapshot != nil && m.data != nil && m.data.CN != nil && m.Snapshot.Timestamp < 9223372036854775808
 //@   requires chain.node.Peer != nil
